@@ -22,13 +22,17 @@ A85_BEFORE_LOOP = '''
     let ghost s = stream.items();
     let ghost i = first_from(s, 0x7eu8, 0);
     let ghost mut p: int = 0;
-    proof { lemma_first_from(s, 0x7eu8, 0); lemma_a85_start(s, i, out@); }
+    proof { lemma_first_from(s, 0x7eu8, 0); lemma_a85_start(s, i, out@); let ghost _c = computes(symbols.f, not_eod_a85()); }
 '''
 A85_INV = [
-    'computes(symbols.f, not_eod_a85())',
-    's == strip_ws(data@)', 'i == first_from(s, 0x7eu8, 0)',
-    'stream.items() == s', 'stream.pos() == p', '!symbols.done', '0 <= p <= i <= s.len()',
+    'computes(symbols.f, symbols.pred@)', ('a85_data_ends_at_tilde', 'symbols.pred@ == not_eod_a85()'),
+    ('a85_all_white_space_ignored', 's == strip_ws(data@)'), 'i == first_from(s, 0x7eu8, 0)',
+    'stream.items() == s', '0 <= p <= i <= s.len()',
     'forall|j: int| 0 <= j < i ==> s[j] != 0x7eu8', 'i < s.len() ==> s[i] == 0x7eu8',
+]
+A85_INV_LOOP = [
+    # cursor: `p` characters of the data consumed, EOD not yet seen
+    'stream.pos() == p', '!symbols.done',
     # the bytes written so far, followed by what ISO 7.4.3 prescribes for the rest of the data, is what it prescribes for the whole
     ('a85_inv', 'a85_inv(s, p, i, out@)'),
 ]
@@ -47,7 +51,7 @@ DECODE_85 = {'kind': 'fn', 'file': E, 'container': None, 'name': 'decode_85', 'p
         ('a85_is_iso_decoder', 'a85_decode_spec(data@) matches Some(v) ==> (r matches Ok(o) && o@ == v)'),
         ('a85_errors', 'a85_decode_spec(data@) is None ==> r is Err'),
     ],
-    'loops': {1: {'invariant': A85_INV, 'ensures': A85_EXIT, 'decreases': 's.len() - p'}},
+    'loops': {1: {'invariant': A85_INV, 'invariant_except_break': A85_INV_LOOP, 'ensures': A85_EXIT, 'decreases': 's.len() - p'}},
     'rewrites': [
         ITER, CLOSURE,
         # R8: `stream.by_ref().take_while(f)` = TakeWhile<&mut I, F>: the `&mut` alias is made explicit (model TakeWhileRef)
@@ -105,10 +109,56 @@ DECODE_NIBBLE = {'kind': 'fn', 'file': E, 'container': None, 'name': 'decode_nib
     'ensures': [('nibble_hex_digit', 'is_hex(c) ==> r == Some(hexval(c) as u8)'),
                 ('nibble_rejects_others', '!is_hex(c) && !(TOL_HEX_GH_ARE_DIGITS() && is_gh(c)) ==> r is None')]}
 
+# ---------------------------------------------------------------------------------------------------------------------
+# encoders / pairing
+# ---------------------------------------------------------------------------------------------------------------------
+# R7: weezl's streaming call chain (a struct holding `&mut out`) behind one abstract call; receiver, sink and data stay verbatim
+WEEZL = {'rule': 'R7', 'regex': r'((?:Encoder::new\([^()]*\))|\b\w+)\s*\.into_stream\(&mut (\w+)\)\s*\.(encode|decode)_all\((\w+)\)\.status',
+         'replace': r'weezl_\3_all(&mut \1, &mut \2, \4)'}
+EC01 = '(params.early_change == 0 || params.early_change == 1)'
+FLATE_ENCODE = {'kind': 'fn', 'file': E, 'container': None, 'name': 'flate_encode', 'props': ENC,
+    'ensures': [
+        # ISO 32000-1 7.4.4.1: Flate data is a zlib stream (RFC 1950)
+        ('flate_standard_framing', 'zlib_inflated(r@) == Some(data@)'),
+        # what flate_decode (zlib first, raw deflate as fallback) makes of it
+        ('flate_pairing', 'inflated(r@) == Some(data@)'),
+    ]}
+LZW_DECODE = {'kind': 'fn', 'file': E, 'container': None, 'name': 'lzw_decode', 'props': ['C05', 'C16'],
+    'ensures': [
+        ('lzw_decodes_standard_format', EC01 + ' ==> ((lzw_expand(pdf_lzw_cfg(params.early_change as int), data@) is None ==> r is Err)'
+            ' && (lzw_expand(pdf_lzw_cfg(params.early_change as int), data@) matches Some(x) ==> (params.predictor == 1 ==> (r matches Ok(v) && v@ == x))))'),
+    ],
+    'rewrites': [WEEZL]}
+LZW_ENCODE = {'kind': 'fn', 'file': E, 'container': None, 'name': 'lzw_encode', 'props': ENC,
+    'ensures': [
+        # Table 8: EarlyChange defaults to 1 -- the encoder must accept what the filter's defaults say
+        ('lzw_default_parameters_accepted', EC01 + ' ==> r is Ok'),
+        ('lzw_standard_format', EC01 + ' ==> (r matches Ok(v) ==> lzw_expand(pdf_lzw_cfg(params.early_change as int), v@) == Some(data@))'),
+    ],
+    'rewrites': [WEEZL]}
+F = '(*filter)'
+ENCODE = {'kind': 'fn', 'file': E, 'container': None, 'name': 'encode', 'props': ENC,
+    'requires': ['data@.len() <= isize::MAX'],      # language invariant of slices (encode_hex / encode_85 need it)
+    'ensures': [
+        ('encode_hex_arm', F + ' is ASCIIHexDecode ==> (r matches Ok(v) && v@ == enchex_spec(data@))'),
+        ('encode_85_arm', F + ' is ASCII85Decode ==> (r matches Ok(v) && v@ == enc85_spec(data@))'),
+        ('encode_lzw_arm', F + ' matches StreamFilter::LZWDecode(p) ==> (p.predictor == 1 && (p.early_change == 0 || p.early_change == 1)'
+                           ' ==> (r matches Ok(v) && lzw_expand(pdf_lzw_cfg(p.early_change as int), v@) == Some(data@)))'),
+        ('encode_flate_arm', F + ' matches StreamFilter::FlateDecode(p) ==> (p.predictor == 1 ==> (r matches Ok(v) && zlib_inflated(v@) == Some(data@)))'),
+        # neither encoder applies a predictor: parameters that ask for one must be refused, not silently ignored
+        ('encode_refuses_predictors', '(' + F + ' matches StreamFilter::LZWDecode(p) && p.predictor != 1) || (' + F + ' matches StreamFilter::FlateDecode(p) && p.predictor != 1) ==> r is Err'),
+        ('encode_unsupported_is_err', F + ' is JPXDecode || ' + F + ' is DCTDecode || ' + F + ' is CCITTFaxDecode || ' + F + ' is JBIG2Decode || '
+                                      + F + ' is Crypt || ' + F + ' is RunLengthDecode ==> r is Err'),
+    ],
+    'rewrites': [
+        # R4: the crate's own `unimplemented!()` (error.rs) is `bail!("Unimplemented @ ..")`, not a panic
+        {'rule': 'R4', 'find': 'unimplemented!()', 'replace': 'bail!("Unimplemented")', 'count': '*'},
+    ]}
+
 UNIT = {
  'name': 'codecs2',
  'doc': 'decode_85 / decode_hex whole string vs ISO 32000-1 7.4.2-7.4.3 and inversion of the ISO encoders; flate/lzw encoder-decoder pairing (typestate env); encode dispatch',
- 'rlimit': 40,
+ 'rlimit': 80,
  'tolerances': {
    'TOL_A85_DATA_AFTER_EOD_IS_ERROR': 'non-white-space bytes after `~>` make decode_85 fail. ISO 7.4.3 ends the data at EOD and says nothing about what follows; '
                                       'a conforming encoder writes nothing after EOD (C05/C16 quantify over encoder output)',
@@ -121,5 +171,11 @@ UNIT = {
    'decode_nibble': DECODE_NIBBLE,
    'decode_hex': DECODE_HEX,
    'decode_85': DECODE_85,
+   'struct LZWFlateParams': {'kind': 'decl', 'file': E, 'header': r'^pub struct LZWFlateParams$'},
+   'enum StreamFilter': {'kind': 'decl', 'file': E, 'header': r'^pub enum StreamFilter$'},
+   'flate_encode': FLATE_ENCODE,
+   'lzw_decode': LZW_DECODE,
+   'lzw_encode': LZW_ENCODE,
+   'encode': ENCODE,
  },
 }
